@@ -1,6 +1,244 @@
-/- stub: property C12 has no model driver yet -/
-namespace ActixModel.Drv.C12
+import ActixModel.Util
+import ActixModel.Consts
+import ActixModel.Model.Collect
+/-
+Line-protocol driver for C12.  One case = space separated `key=value` words:
 
-def run (_line : String) : String := "unimplemented"
+  ex=bytes|string|json|form|jb|ue|tbl|tbs  lim=<n>|dflt  cl=none|bad|<n>  enc=id|gz|df|br|zs
+  body=<spec>  wire=<n>  cuts=<tok,tok,…>
+  ex=mp form=A|B|C total=<n>|dflt mem=<n>|dflt fields=<name:len;…> cuts=<…>
+  ex=fb lim=<n> body=<spec> cuts=<…>      (`Field::bytes(lim)` on the first of two multipart fields)
+
+`body` is the *plain* (decoded) body: `x:<hex>` | `r:<byte>:<n>` | `q:<seed>:<n>` (LCG) |
+`j:<n>` (a JSON string literal of n bytes) | `f:<n>` (`a=` + n-2 letters).  `cuts` cut the wire
+image: a number = a chunk of that many bytes, `p` = the stream returns Pending once (no-op for
+the model), `e` = the stream yields an error.  For `enc=id` the wire image is the body and the
+model runs on exactly the harness's chunks (so it also predicts how far the stream is pulled);
+for the other codings the decompressor is a black box: by `C12_decoded` the result is that of
+any chunking of the plain body, and `pulled`/`eof` are not predicted (`-`).
+Output: `<res> st=<status|-> pulled=<n|-> eof=<0|1|-> osz=<n|->`.
+`jb` / `ue` = the public futures `JsonBody::<String>::new(..)` / `UrlEncoded::<{a}>::new(..)` used
+directly: `lim=dflt` ⇒ polled without `.limit()`, otherwise `.limit(n)` is applied.
+See `harness/src/props/c12.rs` for the implementation side.
+-/
+namespace ActixModel.Drv.C12
+open ActixModel.Util ActixModel.Collect
+
+def lcgNext (s : Nat) : Nat := (s * 1103515245 + 12345) % 2147483648
+
+def lcgBytes : Nat → Nat → Bytes → Bytes
+  | 0, _, acc => acc.reverse
+  | n + 1, s, acc =>
+    let s' := lcgNext s
+    lcgBytes n s' (UInt8.ofNat ((s' / 65536) % 256) :: acc)
+
+def letters (n : Nat) : Bytes := (List.range n).map fun i => UInt8.ofNat (97 + i % 26)
+
+def bodyOfSpec (spec : String) : Bytes :=
+  match spec.splitOn ":" with
+  | ["x", h] => (bytesOfHex h).getD []
+  | ["r", b, n] => List.replicate (n.toNat?.getD 0) (UInt8.ofNat (b.toNat?.getD 0))
+  | ["q", s, n] => lcgBytes (n.toNat?.getD 0) (s.toNat?.getD 0) []
+  | ["j", n] => [34] ++ letters ((n.toNat?.getD 2) - 2) ++ [34]
+  | ["f", n] => [97, 61] ++ letters ((n.toNat?.getD 2) - 2)
+  | _ => []
+
+def fnv (bs : Bytes) : Nat :=
+  bs.foldl (fun h b => ((h ^^^ b.toNat) * 16777619) % 4294967296) 2166136261
+
+/-- cut tokens applied to the wire image (identity coding) -/
+def itemsOfCuts : List String → Bytes → List Item
+  | [], _ => []
+  | t :: ts, bs =>
+    if t == "p" then itemsOfCuts ts bs
+    else if t == "e" then .err :: itemsOfCuts ts bs
+    else
+      let n := t.toNat?.getD 0
+      .chunk (bs.take n) :: itemsOfCuts ts (bs.drop n)
+
+def hasE (toks : List String) : Bool := toks.contains "e"
+
+def isAlnum (b : UInt8) : Bool := (48 ≤ b && b ≤ 57) || (97 ≤ b && b ≤ 122)
+
+/-- `serde_json::from_slice::<String>` on the generator's class: `"` alnum* `"` -/
+def jsonInner (b : Bytes) : Option Bytes :=
+  match b with
+  | 34 :: rest =>
+    match rest.reverse with
+    | 34 :: revInner => if revInner.all isAlnum then some revInner.reverse else none
+    | _ => none
+  | _ => none
+
+/-- `serde_urlencoded::from_bytes::<{a: String}>` on the generator's class: `a=` alnum* -/
+def formInner (b : Bytes) : Option Bytes :=
+  match b with
+  | 97 :: 61 :: rest => if rest.all isAlnum then some rest else none
+  | _ => none
+
+def showOk (b : Bytes) : String := "ok:" ++ toString b.length ++ ":" ++ toString (fnv b)
+
+/-- (result token, status) after the extractor-specific post-processing of a collected body -/
+def post (ex : String) (b : Bytes) : String × String :=
+  let ex := if ex == "jb" then "json" else if ex == "ue" then "form" else ex
+  if ex == "string" then
+    if b.all (· < 128) then (showOk b, "-") else ("utf8-err", "400")
+  else if ex == "json" then
+    match jsonInner b with
+    | some i => (showOk i, "-")
+    | none => ("parse-err", "400")
+  else if ex == "form" then
+    match formInner b with
+    | some i => (showOk i, "-")
+    | none => ("parse-err", "400")
+  else (showOk b, "-")
+
+def showRes (ex0 : String) (r : Res) : String × String :=
+  let ex := if ex0 == "jb" then "json" else if ex0 == "ue" then "form" else ex0
+  match r with
+  | .body b => post ex b
+  | .overflow => ("overflow", "413")
+  | .overflowKnown n =>
+    -- `HttpMessageBody` uses the same `PayloadError::Overflow` for both
+    if ex == "bytes" || ex == "string" then ("overflow", "413") else ("overflow-known:" ++ toString n, "413")
+  | .unknownLength => ("unknown-length", if ex == "form" then "411" else "400")
+  | .streamErr => ("stream-err", "400")
+  | .exceeded => ("exceeded", "-")
+
+def parseDecl (s : String) : Decl :=
+  if s == "none" then .absent else match s.toNat? with | some n => .len n | none => .bad
+
+def defaultLimit (ex : String) : Nat :=
+  if ex == "json" || ex == "jb" then Consts.jsonDefaultLimit
+  else if ex == "ue" then Consts.urlEncodedDefaultLimit
+  else if ex == "form" then Consts.formDefaultLimit
+  else Consts.payloadDefaultLimit
+
+def runExtractor (ex : String) (limit : Nat) (clS : String) (items : List Item) (noLimitCall : Bool := false) : Res :=
+  if ex == "jb" then
+    (if noLimitCall then jsonBodyNew limit (parseDecl clS) items else jsonBody limit (parseDecl clS) items)
+  else if ex == "ue" then urlEncoded limit (parseDecl clS) items
+  else if ex == "bytes" || ex == "string" then
+    httpMessageBody Consts.payloadDefaultLimit limit (parseDecl clS) items
+  else if ex == "json" then jsonBody limit (parseDecl clS) items
+  else if ex == "form" then urlEncoded limit (parseDecl clS) items
+  else if ex == "tbl" then toBytesLimited limit .stream items
+  else
+    let sz := if clS == "none" then BodySize.stream else match clS.toNat? with
+      | some n => .sized n
+      | none => .none
+    toBytesLimited limit sz items
+
+/-- did the body stage start polling at all? -/
+def polls (ex : String) (limit : Nat) (clS : String) (r : Res) : Bool :=
+  if refusedEarly r then false
+  else if ex == "tbs" then
+    if clS == "none" then true
+    else match clS.toNat? with
+      | some n => !(n == 0 || n > limit)
+      | none => false
+  else true
+
+def runStream (ws : List String) (ex : String) : String :=
+  let limit := match kv ws "lim" with
+    | some "dflt" => defaultLimit ex
+    | some v => v.toNat?.getD 0
+    | none => defaultLimit ex
+  let clS := (kv ws "cl").getD "none"
+  let enc := (kv ws "enc").getD "id"
+  let body := bodyOfSpec ((kv ws "body").getD "x:-")
+  let toks := ((kv ws "cuts").getD "").splitOn "," |>.filter (· ≠ "")
+  let ident := enc == "id" || ex == "tbl" || ex == "tbs"
+  let items := if ident then itemsOfCuts toks body else [Item.chunk body]
+  let noLimitCall := (kv ws "lim").getD "dflt" == "dflt"
+  let r := runExtractor ex limit clS items noLimitCall
+  let (tok, st0) := showRes ex r
+  -- `to_bytes_limited` results are not HTTP errors: no status
+  let st := if ex == "tbl" || ex == "tbs" then "-" else st0
+  let (pl, eof) :=
+    if !ident then ("-", "-")
+    else if !polls ex limit clS r then ("0", "0")
+    else
+      let (n, e) := pulled limit items
+      (toString n, if e then "1" else "0")
+  let osz :=
+    if (ex == "form" || ex == "ue") && ident then
+      match parseDecl clS, r with
+      | .bad, _ => "-"
+      | _, .overflow =>
+        match collect limit items with
+        | .overflow k => toString k
+        | _ => "-"
+      | _, _ => "-"
+    else "-"
+  tok ++ " st=" ++ st ++ " pulled=" ++ pl ++ " eof=" ++ eof ++ " osz=" ++ osz
+
+/-! multipart -/
+
+def mpLimitOf (form : String) (name : String) : Option Nat :=
+  if form == "A" then
+    (if name == "a" then some 16 else if name == "t" then some 24 else if name == "s" then some 8 else none)
+  else if form == "B" then (if name == "a" then some 16 else none)
+  else (if name == "b" then some 16 else none)
+
+def mpKind (form : String) (name : String) (seen : Bool) : FieldKind :=
+  if form == "A" then
+    if name == "a" then .memory
+    else if name == "t" then .file
+    else if name == "b" || name == "s" then (if seen then .discard else .memory)
+    else .discard
+  else if form == "B" then
+    if name == "a" then .memory
+    else if name == "b" then (if seen then .deny else .memory)
+    else .discard
+  else
+    if name == "a" || name == "b" then .memory else .discard
+
+def mpFields (form : String) : List String → List String → List Field
+  | [], _ => []
+  | spec :: rest, seen =>
+    match spec.splitOn ":" with
+    | [name, len] =>
+      let n := len.toNat?.getD 0
+      -- by `C12_mp_field_chunking_independent` any chunking of the field will do
+      { name := name, kind := mpKind form name (seen.contains name), chunks := if n == 0 then [] else [n] }
+        :: mpFields form rest (name :: seen)
+    | _ => mpFields form rest seen
+
+def runMp (ws : List String) : String :=
+  let form := (kv ws "form").getD "A"
+  let total := match kv ws "total" with
+    | some "dflt" => Consts.mpFormDefaultTotal
+    | some v => v.toNat?.getD 0
+    | none => Consts.mpFormDefaultTotal
+  let mem := match kv ws "mem" with
+    | some "dflt" => Consts.mpFormDefaultMemory
+    | some v => v.toNat?.getD 0
+    | none => Consts.mpFormDefaultMemory
+  let specs := ((kv ws "fields").getD "").splitOn ";" |>.filter (· ≠ "")
+  let fields := mpFields form specs []
+  match (multipartForm (mpLimitOf form) total mem fields).1 with
+  | .ok => "ok st=-"
+  | .overflow _ => "overflow st=400"
+  | .duplicate _ => "duplicate st=400"
+
+/-- `Field::bytes(limit)`: by `C12_field_bytes_chunking_independent` the parser's chunking of the
+field does not matter; an injected stream error (always before the field's end) wins -/
+def runFb (ws : List String) : String :=
+  let limit := kvNat ws "lim" 0
+  let body := bodyOfSpec ((kv ws "body").getD "x:-")
+  let toks := ((kv ws "cuts").getD "").splitOn "," |>.filter (· ≠ "")
+  let items := [Item.chunk body] ++ (if hasE toks then [Item.err] else [])
+  match fieldBytes limit items with
+  | .ok b => showOk b ++ " next=1"
+  | .limitExceeded => "limit-exceeded next=1"
+  | .streamErr => "stream-err next=0"
+
+def run (line : String) : String :=
+  let ws := words line
+  match kv ws "ex" with
+  | some "mp" => runMp ws
+  | some "fb" => runFb ws
+  | some ex => runStream ws ex
+  | none => "bad-case"
 
 end ActixModel.Drv.C12
